@@ -467,6 +467,10 @@ def hyp_cases(draw, tier):
     }
 
 
+# (what round 8 added to the case domain; part of the evidence text)
+RULE_ROUND8 = " Templates with a number format spec on {idx} ('F-{idx:03}', '[{idx:>4}]', '{idx:02d}.{hier_idx:>8}'); one case in eight gives the last type 32..70 siblings per parent. Parts tz-west-of-utc / tz-east-of-utc: the whole part once more in child interpreters with TZ=America/Los_Angeles and TZ=Pacific/Kiritimati."
+RULE = RULE + RULE_ROUND8
+
 PARTS = [
     Part("structure-defs", run, strategy=lambda tier: hyp_cases(tier), n={"quick": 1500, "thorough": 150000}),
     nested_part("C20", ["structure-defs"], {"TZ": "America/Los_Angeles"}, "tz-west-of-utc", "local time is behind UTC"),
